@@ -48,6 +48,7 @@ class World:
         self.ns = [dict() for _ in spec['algebras']]          # per algebra: body id -> registered object
         self.regspec = {}                                      # (alg, body id) -> registration spec
         self.shared = {}                                       # index -> operand object
+        self.fn_cache = {}
         import threading
         self._tls = threading.local()
         self.prev_results = {}                                 # (caller, op index) -> returned MultiVector
@@ -57,7 +58,12 @@ class World:
     def register(self, ai, bid):
         r = self.regspec.get((ai, bid), {'alg': ai, 'body': bid})
         entry = bodies.LIB[bid]
-        fn = entry['factory'](self.ns[ai])
+        # the same Python function object is registered again on re-registration, and - for bodies that call
+        # no other registered function - on every algebra of the world
+        ck = bid if not entry['deps'] else (ai, bid)
+        if ck not in self.fn_cache:
+            self.fn_cache[ck] = entry['factory'](self.ns[ai])
+        fn = self.fn_cache[ck]
         kw = {}
         if r.get('name') is not None:
             kw['name'] = r['name']
@@ -121,6 +127,8 @@ def build_algebra(a, wrapper=None):
             kw[k] = a[k]
     if a.get('symbolcls') == 'sympy':
         kw['codegen_symbolcls'] = sympy.Symbol
+    if a.get('simp_func') == 'ident':
+        kw['simp_func'] = lambda v: v          # user-replaced simplification/filter function
     if wrapper is not None:
         kw['wrapper'] = wrapper
     if a.get('name'):
